@@ -272,6 +272,23 @@ def run_case(ck, desc):
                 rs2 = float(oil.solution_gor_Standing(T, p, api, gg, gor))
                 want2 = (bg2 - float(oil.db_o_dgor_Standing(T, api, gg, rs2))) * float(oil.dgor_dpressure_Standing(T, p, api, gg, gor)) / float(oil.b_o_bubblepoint_Standing(T, api, gg, gor))
                 _cmp(ck, "co==(Bg-dBo/dRs)*dRs/dp/Bob (caller's standard conditions)", c2, want2, desc, {"p": p, "standard_conditions": [Tstd, pstd]}, tol=1e-11)
+    # (e') at and above the bubble point the oil is one phase: the gas arguments (pseudocritical point,
+    #      standard conditions) are whatever the caller has for a fluid without free gas - None, nan, 0.0 - and
+    #      the answer is still exactly the undersaturated correlation
+    if p >= pb:
+        sp_ = float(oil.oil_compressibility_undersat_Spivey(T, p, api, gg, gor))
+        for ph_ in (None, float("nan"), 0.0, 0):
+            for extra_ in ((), (ph_, ph_)):
+                try:
+                    with np.errstate(all="ignore"):
+                        c_ = float(oil.oil_compressibility_Standing(T, p, api, gg, gor, ph_, ph_, *extra_))
+                except Exception as e:  # noqa: BLE001
+                    ck.violation("co==undersaturated-at-or-above-pb", {"gas_arguments": repr(ph_), "standard_conditions_given": bool(extra_), "raised": repr(e)[:160], "p": p, "pb": pb}, desc)
+                    break
+                ck.count("undersaturated_calls_with_placeholder_gas_arguments")
+                if c_ != sp_:
+                    ck.violation("co==undersaturated-at-or-above-pb", {"gas_arguments": repr(ph_), "standard_conditions_given": bool(extra_), "co": c_, "spivey": sp_, "p": p, "pb": pb}, desc)
+                    break
     # (f) "at every input": numeric arguments the pairs accept beyond the ones driven above, found in their
     #     signatures at run time (an optional correction added to a parent and to its derivative alike)
     _optional_arguments(ck, desc, "d(Bw)/dp", water.b_water_McCain, water.b_water_McCain_dp, [Tw, pw], [Tw, pw], 1)
